@@ -19,7 +19,7 @@ type Roles struct {
 	Chan *types.Named // struct implementing Channel
 
 	WriteQueue, Transport, Executor, Pipeline, Ctx, Cancel *types.Var
-	WriteLock, CloseErr, Closed, Running, UntilWrite      *types.Var
+	WriteLock, CloseErr, Closed, Running, UntilWrite       *types.Var
 
 	Sender    *ssa.Function   // drains the write queue
 	Closer    *ssa.Function   // (*channel).Close
@@ -72,7 +72,7 @@ func (p *Prog) DeclMethod(n *types.Named, name string) *ssa.Function {
 	}
 	for i := 0; i < n.NumMethods(); i++ {
 		if m := n.Method(i); m.Name() == name {
-			return p.SSA.FuncValue(m)
+			return p.FuncOf(m)
 		}
 	}
 	return nil
